@@ -399,6 +399,16 @@ var stdCoinTok = map[string]bool{"pkh": true, "sh": true, "wpkh": true, "tr": tr
 
 func varintSize(n int) int { return wire.VarIntSerializeSize(uint64(n)) }
 
+// feeAtRate is the oracle's own statement of "rate (sat per 1000 vbytes) applied to a size", independent of
+// txrules.FeeForSerializeSize: floor(rate*size/1000), capped at the 21e14 sat money supply.
+func feeAtRate(rate, size int64) int64 {
+	f := rate * size / 1000
+	if f > 2100000000000000 {
+		f = 2100000000000000
+	}
+	return f
+}
+
 // ------------------------------------------------------------------------------------------------ the author op
 
 type authorResult struct {
@@ -435,7 +445,10 @@ func runAuthor(r *request, sign bool) authorResult {
 		}
 		return r.csScr, nil
 	}}
-	atx, err := txauthor.NewUnsignedTransaction(r.outs, btcutil.Amount(r.rate), src, cs)
+	// the caller's slice has spare capacity, as slices built with append usually do
+	callerOuts := make([]*wire.TxOut, len(r.outs), len(r.outs)+4)
+	copy(callerOuts, r.outs)
+	atx, err := txauthor.NewUnsignedTransaction(callerOuts, btcutil.Amount(r.rate), src, cs)
 	viol := func(key, f string, a ...interface{}) {
 		res.viol = append(res.viol, fmt.Sprintf("C07 key=%s: %s", key, fmt.Sprintf(f, a...)))
 	}
@@ -466,7 +479,7 @@ func runAuthor(r *request, sign bool) authorResult {
 				total += c.val
 			}
 			p, t, w, n := counts(all)
-			need := sumOuts + int64(txrules.FeeForSerializeSize(btcutil.Amount(r.rate), txsizes.EstimateVirtualSize(p, t, w, n, requested, r.csSize)))
+			need := sumOuts + feeAtRate(r.rate, int64(txsizes.EstimateVirtualSize(p, t, w, n, requested, r.csSize)))
 			if total >= need {
 				key := "NewUnsignedTransaction.insufficient-but-covered"
 				if len(r.coins) == 1 && classOf(r.coins[0].script) == "p2tr" {
@@ -494,14 +507,45 @@ func runAuthor(r *request, sign bool) authorResult {
 	} else if atx.ChangeIndex >= 0 {
 		chg = fmt.Sprintf("%d:out-of-range", atx.ChangeIndex)
 	}
-	res.reply = fmt.Sprintf("ok n=%d total=%d nout=%d chg=%s fee=%d targets=%s", nIn, int64(atx.TotalInput), len(tx.TxOut), chg, fee, joinTargets(st.targets))
+	// author a second, different transaction from the SAME caller slice, then look at the first result again
+	stable := 1
+	{
+		firstPtrs := append([]*wire.TxOut{}, tx.TxOut...)
+		firstVals := make([]int64, len(tx.TxOut))
+		for i, o := range tx.TxOut {
+			firstVals[i] = o.Value
+		}
+		r2 := *r
+		r2.coins = append([]coin{}, r.coins...)
+		for i := range r2.coins {
+			r2.coins[i].val += 777
+		}
+		r2.failAt = 0
+		st2 := &srcState{}
+		cs2 := &txauthor.ChangeSource{ScriptSize: r.csSize, NewScript: func() ([]byte, error) {
+			return append([]byte{}, r.csScr...), nil
+		}}
+		_, _ = txauthor.NewUnsignedTransaction(callerOuts, btcutil.Amount(r.rate), makeSource(&r2, st2), cs2)
+		if len(tx.TxOut) != len(firstPtrs) {
+			stable = 0
+		}
+		for i := 0; stable == 1 && i < len(firstPtrs); i++ {
+			if tx.TxOut[i] != firstPtrs[i] || tx.TxOut[i].Value != firstVals[i] {
+				stable = 0
+			}
+		}
+	}
+	res.reply = fmt.Sprintf("ok n=%d total=%d nout=%d chg=%s fee=%d targets=%s st=%d", nIn, int64(atx.TotalInput), len(tx.TxOut), chg, fee, joinTargets(st.targets), stable)
 
 	// ---- oracles on the real result
+	if stable == 0 {
+		viol("NewUnsignedTransaction.result-aliases-caller-slice", "authoring a second transaction from the same outputs slice (cap > len) changed the outputs of the first authored transaction")
+	}
 	// outputs kept
-	kept := len(tx.TxOut) >= len(snapshot) && len(r.outs) == len(snapshot)
+	kept := len(tx.TxOut) >= len(snapshot) && len(callerOuts) == len(snapshot)
 	for i := 0; kept && i < len(snapshot); i++ {
 		kept = tx.TxOut[i].Value == snapshot[i].Value && bytes.Equal(tx.TxOut[i].PkScript, snapshot[i].PkScript) &&
-			r.outs[i] == requested[i] && r.outs[i].Value == snapshot[i].Value && bytes.Equal(r.outs[i].PkScript, snapshot[i].PkScript)
+			callerOuts[i] == requested[i] && callerOuts[i].Value == snapshot[i].Value && bytes.Equal(callerOuts[i].PkScript, snapshot[i].PkScript)
 	}
 	if !kept {
 		viol("NewUnsignedTransaction.outputs-changed", "requested outputs are not a prefix of the authored outputs (or the caller's slice was modified)")
@@ -615,7 +659,7 @@ func runAuthor(r *request, sign bool) authorResult {
 			}
 			viol(key, "worst-case estimate %d vB < real signed vsize %d vB (%d outputs requested, change %v)", estimate, vsize, len(snapshot), atx.ChangeIndex >= 0)
 		}
-		need := int64(txrules.FeeForSerializeSize(btcutil.Amount(r.rate), int(vsize)))
+		need := feeAtRate(r.rate, vsize)
 		if fee < need {
 			key := "NewUnsignedTransaction.fee-below-rate"
 			if r.csSize > 0 && varintSize(len(snapshot)) != varintSize(len(snapshot)+1) {
@@ -1079,6 +1123,43 @@ func (engine) Generate(rng *rand.Rand, tier string) []core.Case {
 			for _, d := range []int64{-1, 0, 1, 5 * rate / 1000, 10 * rate / 1000} {
 				add("single-coin-window", finish(fmt.Sprintf("author rate=%d outs=%s cs=22:wpkh coins=%d:%s src=prefix failat=0", rate, outs, need+d, k)))
 				add("single-coin-window", finish(fmt.Sprintf("author rate=%d outs=%s cs=22:wpkh coins=%d:%s,%d:pkh src=prefix failat=0", rate, outs, need+d, k, 1+rng.Intn(200))))
+			}
+		}
+	}
+	flush()
+
+	// 3b. coin prefixes that hit a fetch target EXACTLY (sufficiency test `<` vs `<=`)
+	firstTarget := func(rate int64, outs string, csSize int) int64 {
+		wouts, _ := parseOuts(outs, true)
+		var t0 int64 = -1
+		_, _ = txauthor.NewUnsignedTransaction(wouts, btcutil.Amount(rate), func(target btcutil.Amount) (btcutil.Amount, []*wire.TxIn, []btcutil.Amount, [][]byte, error) {
+			t0 = int64(target)
+			return 0, nil, nil, nil, errSource
+		}, &txauthor.ChangeSource{ScriptSize: csSize, NewScript: func() ([]byte, error) { return nil, errSource }})
+		return t0
+	}
+	for i := 0; i < 24; i++ {
+		rate := g.rate()
+		nOut := 1 + rng.Intn(3)
+		outs := g.outs(nOut, false)
+		wouts, _ := parseOuts(outs, true)
+		var sum int64
+		for _, o := range wouts {
+			sum += o.Value
+		}
+		c := csChoices[rng.Intn(4)]
+		csSize, _ := strconv.Atoi(c[0])
+		t0 := firstTarget(rate, outs, csSize)
+		k1, k2, k3 := pick(rng, coinToks), pick(rng, coinToks), pick(rng, coinToks)
+		scr1, _ := buildScript(k1, 0)
+		p, t, w, n := counts([][]byte{scr1})
+		tf1 := int64(txrules.FeeForSerializeSize(btcutil.Amount(rate), txsizes.EstimateVirtualSize(p, t, w, n, wouts, csSize)))
+		for _, d := range []int64{-1, 0, 1} {
+			add("exact-target", finish(fmt.Sprintf("author rate=%d outs=%s cs=%s:%s coins=%d:%s,%d:%s src=prefix failat=0", rate, outs, c[0], c[1], t0+d, k1, 500000+rng.Intn(1000), k2)))
+			// second level: c1 reaches the first target, c1+c2 reaches the raised target exactly
+			c2 := sum + tf1 - t0 + d
+			if c2 > 0 {
+				add("exact-target", finish(fmt.Sprintf("author rate=%d outs=%s cs=%s:%s coins=%d:%s,%d:%s,%d:%s src=prefix failat=0", rate, outs, c[0], c[1], t0, k1, c2, k2, 500000+rng.Intn(1000), k3)))
 			}
 		}
 	}
